@@ -77,7 +77,8 @@ class Gauss(Family):
         self.L = np.linalg.cholesky(self.cov)
         self.theta_dim = self.data_dim = self.P.shape[0]
 
-    def outcomes(self, theta, order=3):
+    def outcomes(self, theta, order=2):
+        # the score is linear in d: score x score has degree 2 <= 2*order-1
         Z, W = tensor([gauss_hermite(order)] * self.data_dim)
         return np.asarray(theta)[None, :] + Z @ self.L.T, W
 
@@ -300,7 +301,8 @@ class VarGauss(Family):
         self.data_dim = self.c * n
         self.theta_dim = n + (0 if mean_fixed else self.c * n)
 
-    def outcomes(self, theta, order=4):
+    def outcomes(self, theta, order=3):
+        # score quadratic in d: score x score has degree 4 <= 2*order-1
         theta = np.asarray(theta, dtype=np.float64)
         prec = theta[-self.n:]
         mean = np.zeros(self.data_dim) if self.mean_fixed else theta[:self.data_dim]
